@@ -186,12 +186,12 @@ def build_h2(N, publishers=3, reads=2):
 def specs(tier):
     out = []
     out.append(Spec("h1_claim_rewind_n3", build_h1(3, claims=(1, 1), publisher=False), cfg={"cap": 3, "loops": loops(3)},
-                    unwind=8, timeout=900,
+                    unwind=8, timeout=2700,
                     desc="real next_validation_idx on 2 threads || rewind_validation_to(R) from an arbitrary consistent "
                          "cursor/frontier state, then sequential drain: reissue, limit, no extra claims",
                     bounds={"n": 3, "threads": 3, "spurious_cas_failures_per_thread": 1, "cas_retries": 2,
                             "memory_model": "SC"}))
-    out.append(Spec("h2_frontier_n3", build_h2(3, 2, 2), cfg={"cap": 3, "loops": loops(3)}, unwind=8, timeout=900,
+    out.append(Spec("h2_frontier_n3", build_h2(3, 2, 2), cfg={"cap": 3, "loops": loops(3)}, unwind=8, timeout=2700,
                     desc="real ExecutionFrontier publish/advance/current: 2 publishers (any indices, any order) || reader x2",
                     bounds={"n": 3, "threads": 3, "memory_model": "SC"}))
     # timestamp clause ("a validation that predates a rewind covering it can never make its tx eligible for finality"):
